@@ -312,6 +312,109 @@ theorem marshal_methods_at_base (maxDepth : Nat) (ms : MethodSet) (fns : List Fn
       rw [h] at hc'
       cases hc'
 
+/-! ### The same for the unmarshal half -/
+
+theorem mem_wrapUnmarshalText (r : Recv) (beh : Behav) (prev : Arshaler) (ctx : Ctx) :
+    ∀ c ∈ (wrapUnmarshalText r beh prev ctx).trace, c ∈ (prev ctx).trace ∨ ∃ k, c = .meth k ctx.lvl := by
+  intro c hc
+  unfold wrapUnmarshalText at hc
+  split at hc
+  · exact Or.inl hc
+  · dsimp only at hc
+    split at hc
+    · simp at hc
+    · split at hc
+      · simp [Outcome.error] at hc
+      · exact Or.inr ⟨_, mem_callFinal _ _ _ hc⟩
+
+theorem mem_wrapUnmarshalJSON (r : Recv) (beh : Behav) (prev : Arshaler) (ctx : Ctx) :
+    ∀ c ∈ (wrapUnmarshalJSON r beh prev ctx).trace, c ∈ (prev ctx).trace ∨ ∃ k, c = .meth k ctx.lvl := by
+  intro c hc
+  unfold wrapUnmarshalJSON at hc
+  split at hc
+  · exact Or.inl hc
+  · dsimp only at hc
+    split at hc
+    · exact Or.inl hc
+    · exact Or.inr ⟨_, mem_callFinal _ _ _ hc⟩
+
+theorem mem_wrapUnmarshalJSONFrom (r : Recv) (beh : Behav) (prev : Arshaler) (ctx : Ctx) :
+    ∀ c ∈ (wrapUnmarshalJSONFrom r beh prev ctx).trace, c ∈ (prev ctx).trace ∨ ∃ k, c = .meth k ctx.lvl := by
+  intro c hc
+  unfold wrapUnmarshalJSONFrom at hc
+  split at hc
+  · exact Or.inl hc
+  · dsimp only at hc
+    split at hc
+    · exact Or.inl hc
+    · rcases mem_callOrPrev _ _ _ _ hc with h | h
+      · exact Or.inr ⟨_, h⟩
+      · exact Or.inl h
+
+theorem mem_makeMethodUnmarshaler (k : TKind) (ms : UMethodSet) (beh : Behav) (fncs : Arshaler) (ctx : Ctx) :
+    ∀ c ∈ (makeMethodUnmarshaler k ms beh fncs ctx).trace,
+      c ∈ (fncs ctx).trace ∨ (k = .named ∧ ∃ mk, c = .meth mk ctx.lvl) := by
+  intro c hc
+  unfold makeMethodUnmarshaler at hc
+  split at hc
+  · exact Or.inl hc
+  · rename_i hk
+    have hn : k = .named := by cases k <;> simp_all
+    rcases mem_wrapUnmarshalJSONFrom _ _ _ _ c hc with h | h
+    · rcases mem_wrapUnmarshalJSON _ _ _ _ c h with h | h
+      · rcases mem_wrapUnmarshalText _ _ _ _ c h with h | h
+        · exact Or.inl h
+        · exact Or.inr ⟨hn, h⟩
+      · exact Or.inr ⟨hn, h⟩
+    · exact Or.inr ⟨hn, h⟩
+
+theorem makeMethodUnmarshaler_noMethods (k : TKind) (beh : Behav) (fncs : Arshaler) :
+    makeMethodUnmarshaler k {} beh fncs = fncs := by
+  unfold makeMethodUnmarshaler
+  split
+  · rfl
+  · simp [wrapUnmarshalJSONFrom, wrapUnmarshalJSON, wrapUnmarshalText, Recv.implements]
+
+theorem unmarshal_methods_at_base (maxDepth : Nat) (ms : UMethodSet) (fns : List FnSpec) (beh : Behav) (legacy : Bool)
+    (levels : List Level) : ∀ (i : Nat) (m : Machine),
+    ∀ c ∈ (unmarshalLevels maxDepth ms fns beh legacy levels i m).trace, MethAtBase levels i c := by
+  induction levels with
+  | nil => intro i m c hc; simp [unmarshalLevels, Outcome.error] at hc
+  | cons l rest ih =>
+    intro i m c hc
+    unfold unmarshalLevels at hc
+    simp only [lookup_eq] at hc
+    rcases mem_documentedFns _ _ _ _ _ _ _ c hc with h | ⟨id, h⟩
+    · cases hkind : l.kind with
+      | base =>
+        rcases mem_makeMethodUnmarshaler _ _ _ _ _ c h with h | ⟨_, mk, h⟩
+        · simp only [hkind] at h
+          split at h <;> simp [Outcome.error] at h
+        · intro k l' hc'
+          rw [h] at hc'
+          cases hc'
+          exact ⟨Nat.le_refl _, l, by simp, hkind⟩
+      | ptr =>
+        simp only [Level.tkind, hkind, makeMethodUnmarshaler_ptr] at h
+        split at h
+        · simp at h
+        · exact (ih _ _ c h).cons
+      | iface =>
+        simp only [Level.tkind, hkind, makeMethodUnmarshaler_iface] at h
+        split at h
+        · simp at h
+        · exact (ih _ _ c h).cons
+      | cont =>
+        have hno : l.methodsU ms = {} := by simp [Level.methodsU, hkind]
+        rw [hno, makeMethodUnmarshaler_noMethods] at h
+        simp only [hkind] at h
+        split at h
+        · exact (ih _ _ c h).cons
+        · simp [Outcome.error] at h
+    · intro k l' hc'
+      rw [h] at hc'
+      cases hc'
+
 /-! ### Small helpers used by Props/C17 -/
 
 def setForced (b : Bool) (l : Level) : Level := { l with forcedAddr := b }
